@@ -258,8 +258,16 @@ class GuardMgr(object):
                     if rep is not None:
                         rep = self.find(rep)
                         if n is not None and n is not rep and rep is not a:
-                            # both denote the complement block set: same function
-                            n.rep = rep
+                            # both denote the complement block set: same function; the younger
+                            # node is merged into the older one (no cycles)
+                            if rep.id < n.id:
+                                n.rep = rep
+                            else:
+                                rep.rep = n
+                                if n.tags is None:
+                                    n.tags = {}
+                                n.tags[pid] = (comp, True)
+                                rep = n
                         if rep is not a:
                             a.neg = rep
                             if rep.neg is None:
@@ -1003,13 +1011,10 @@ class GuardMgr(object):
         rep = self.find(rep)
         if n is rep:
             return
-        if n.kind == "const":
+        # always merge the younger node into the older one: a node's descendants are older than
+        # the node, so the representative can never contain the merged node (no cycles)
+        if n.id < rep.id:
             n, rep = rep, n
-        elif rep.kind != "const":
-            kn = (n.supp.bit_count(), n.id)
-            kr = (rep.supp.bit_count(), rep.id)
-            if kn < kr:
-                n, rep = rep, n
         n.rep = rep
         self.stats.merges += 1
         if n.tags:
@@ -1028,7 +1033,10 @@ class GuardMgr(object):
             nn = self.find(n.neg)
             rn = self.find(rep.neg)
             if nn is not rn:
-                nn.rep = rn
+                if rn.id < nn.id:
+                    nn.rep = rn
+                else:
+                    rn.rep = nn
         elif n.neg is not None and rep.neg is None:
             # keep negation link consistent
             nn = self.find(n.neg)
